@@ -1,4 +1,4 @@
-use alloc::vec::Vec;
+use alloc::{vec, vec::Vec};
 use nom::bytes::streaming::take;
 use nom::combinator::{complete, map_parser};
 use nom::error::{make_error, ErrorKind};
@@ -102,7 +102,11 @@ pub fn parse_tls_record_with_header<'i>(i:&'i [u8], hdr:&TlsRecordHeader ) -> IR
         TlsRecordType::ChangeCipherSpec => many1(complete(parse_tls_message_changecipherspec))(i),
         TlsRecordType::Alert            => many1(complete(parse_tls_message_alert))(i),
         TlsRecordType::Handshake        => many1(complete(parse_tls_message_handshake))(i),
-        TlsRecordType::ApplicationData  => many1(complete(parse_tls_message_applicationdata))(i),
+        TlsRecordType::ApplicationData  => {
+            // a single opaque blob: the message parser consumes its whole input, so it cannot be repeated
+            let (rem, msg) = parse_tls_message_applicationdata(i)?;
+            Ok((rem, vec![msg]))
+        },
         TlsRecordType::Heartbeat        => match parse_tls_message_heartbeat(i, hdr.len) {
             // a record is a complete unit: like the other arms, never report Incomplete
             Err(Err::Incomplete(_)) => Err(Err::Error(make_error(i, ErrorKind::Complete))),
